@@ -324,3 +324,52 @@ def rule_line_writer_verbatim(ctx, rid):
         else:
             ctx.ok(rid, key, "written as formatted")
     ctx.floor(rid, "line_output_routines", n, 1)
+
+
+def rule_ascii_lookahead_premise(ctx, rid):
+    """the two audited facts about lex_number (its slice end `pos - start - 1`, and its first accept() making progress)
+    rest on one premise: lex_number is entered only with a one-byte look-ahead character.  This rule checks the premise."""
+    from analysis.mir import Body, callee_name, callee_id, op_const
+    F = ctx.F
+    ctx.rule(rid, "premise of the lex_number audits: every call of lex_number is reachable only over the TRUE edge of a test that the look-ahead character is an ASCII digit (`is_digit` / `is_ascii_digit`) or equals a one-byte constant; otherwise the literal `- 1` in its slice bound lands inside a multi-byte character")
+    targets = [f for f in F.fns.values() if f.id.startswith("lef21::read::") and f.short.endswith("LefLexer::lex_number")]
+    if len(targets) != 1:
+        ctx.error(rid, "lex_number not found")
+        return
+    tgt = targets[0]
+    n = 0
+    for f in F.fns.values():
+        if not f.id.startswith("lef21::read::") or not f.body or f.id == tgt.id:
+            continue
+        b = Body(f)
+        sites = [bi for bi, t in b.calls() if callee_id(t) == tgt.id]
+        if not sites:
+            continue
+        true_edges = set()
+        for bi, t in b.calls():
+            if re.search(r"char::methods::<impl char>::(is_digit|is_ascii_digit|is_ascii_\w+)$|::(is_digit|is_ascii_digit)$", callee_name(t) or ""):
+                sw = od.bool_switch(b, bi)
+                if sw:
+                    true_edges.add((sw[0], sw[1]))
+        for bi, blk in enumerate(b.blocks):
+            u = blk["term"]
+            if u["k"] != "switch" or blk["cleanup"]:
+                continue
+            rv = b.def_rvalue(u["on"])
+            if rv and rv["k"] == "bin" and rv["op"] == "Eq":
+                cs = [op_const(b.resolve_copy(rv[k])) for k in ("l", "r")]
+                cs = [c for c in cs if c is not None and isinstance(c.get("int"), int)]
+                if cs and all(0 <= c["int"] < 128 for c in cs):
+                    false_t = dict((v, tg) for v, tg in u["arms"]).get(0)
+                    tr = u["else"] if false_t is not None else None
+                    if tr is not None:
+                        true_edges.add((bi, tr))
+        for s_ in sites:
+            n += 1
+            r = od.reach(b, 0, removed_edges=true_edges)
+            key = "%s->lex_number" % f.short
+            if s_ in r:
+                ctx.violation(rid, key, "%s can call lex_number without having established that the look-ahead character is a single byte (an ASCII digit, '.', '-'): lex_number's slice bound subtracts a literal 1 for that character, so a multi-byte lead character makes it slice inside a character or past the end (panic)" % f.short, b.site(s_), key)
+            else:
+                ctx.ok(rid, key, "only behind an ASCII look-ahead test (%d true edges)" % len(true_edges))
+    ctx.floor(rid, "lex_number_call_sites", n, 1)
